@@ -127,6 +127,8 @@ pub fn run(args: &[&str]) -> String {
         let res = catch_unwind(AssertUnwindSafe(|| match f[0] {
             "new" => Range::new((n(1), n(2)), (n(3), n(4))),
             "empty" => Range::empty(),
+            // the derived Default: what the readers return for a sheet without cells
+            "default" => Range::default(),
             "sparse" => {
                 let cells: Vec<Cell<Data>> = if f.len() < 2 || f[1].is_empty() {
                     vec![]
